@@ -40,10 +40,12 @@ FilterText(f) ==
     [] f = "host"  -> "request.target.host == \"ex.com\""
     [] f = "srcre" -> "request.source =~ \"^10[.]0[.]0[.]1:\""
     [] f = "tgt"   -> "request.target == \"ex.com:80\""
+    [] f = "tgt6"  -> "request.target == \"[2001:db8::1]:80\""
+    [] f = "src6"  -> "request.source == \"[::1]:3\""
     [] f = "syntax" -> "request.listener == "            \* does not compile
     [] f = "illtyped" -> "request.listener + 1"           \* compiles, does not type-check (not boolean)
     [] f = "none"  -> ""
-FilterIds == {"none", "true", "false", "err", "l1", "udp", "ubind", "src10", "p80", "dom", "host", "srcre", "tgt"}
+FilterIds == {"none", "true", "false", "err", "l1", "udp", "ubind", "src10", "p80", "dom", "host", "srcre", "tgt", "tgt6", "src6"}
 BadFilterIds == {"syntax", "illtyped"}
 
 IsDigits(h) == h \in {"7", "80", "65535"}
@@ -62,6 +64,8 @@ Holds(f, r) ==
     [] f = "host"  -> B(r.target.host = "ex.com")
     [] f = "srcre" -> B(r.source.txt = "10.0.0.1:1000")
     [] f = "tgt"   -> B(r.target.kind = "domain" /\ r.target.host = "ex.com" /\ r.target.port = 80)
+    [] f = "tgt6"  -> B(r.target.kind = "ipv6" /\ r.target.host = "2001:db8::1" /\ r.target.port = 80)      \* an address with its port is written [v6]:port
+    [] f = "src6"  -> B(r.source.txt = "[::1]:3")
 Matches(rule, r) == Holds(rule.f, r) = "T"
 
 RECURSIVE FirstMatchFrom(_, _, _)
